@@ -93,3 +93,11 @@ claim(
     "source-level expression extraction (uninterpreted cross / axis-sum, stencil coefficients), LIN domain, cross-component agreement per option valuation, group dataflow order",
     "DESIGN.md section 2 C11",
 )
+
+claim(
+    "C15",
+    "Static: decides, as identities of the per-element expressions extracted from the source, that the KS aggregate is the max-shifted log-sum-exp of stress/yield - 1 on every path (which implies max <= KS <= max + ln N / rho and overflow safety), that the exact failure is stress/yield - 1, that every stored von Mises stress is positively homogeneous of degree one in the element's local displacements with strength factors dividing the whole combined stress, and that rigid translations and small rigid rotations of an element give zero stress. Does not decide agreement with closed-form section stresses (the local-axis construction is opaque).",
+    TB,
+    "source-level expression extraction with value numbering of the local displacement components (sympy), substitution identities",
+    "DESIGN.md section 2 C15",
+)
